@@ -25,9 +25,10 @@ RULES = {
     "R4": "completion marker: validity predicate and returned metadata use the same reader; incomplete directory raises naming it",
     "R6": "scan order: the enumerated iteration / plate directories are visited in the order of their integer index (sorted with an int-valued key), not in string order",
     "R7": "the screen read from a completed step's directory is its advanced screen whenever one is published (the training screen only for the initial step)",
+    "R8": "a step directory counts as complete exactly when its metadata marker is there: the reader answers `incomplete` (None) on the emptiness of the screen_metadata.json glob and on nothing else",
     "R5": "inputs: screen = the scan's current screen (predecessor output); thetas/chunks from plate_0 of the same iteration; excludes from the same iteration",
 }
-MIN = {"R1": 2, "R2": 3, "R3": 1, "R4": 2, "R5": 4, "R6": 2, "R7": 1}
+MIN = {"R1": 2, "R2": 3, "R3": 1, "R4": 2, "R5": 4, "R6": 2, "R7": 1, "R8": 1}
 TRUSTED = ["glob/os.path semantics", "the pipeline publishes screen_metadata.json last (completion marker) - not checked here"]
 TECHNIQUE = "who-may-call scan, co-definition (torn update) analysis on the CFG, integer relational normal forms, abstract evaluation of the file-preference function under a stated hypothesis"
 LEVEL_TEXT = ("Two necessary conditions of crash-safe resumption are shape facts of the scan: it never deletes a completed "
@@ -537,7 +538,49 @@ def r7(ctx):
               f"from the simulation's input instead of its predecessor's output and selects the same plate again")
 
 
-RULE_FUNCS = [r1, r2, r3, r4, r5, r6, r7]
+def r8(ctx):
+    """`No completed step is ever deleted`: the scan raises `consider deleting this directory` for a directory the reader calls
+    incomplete, and the marker the pipeline publishes last is screen_metadata.json.  A reader that also demands some other output (a
+    screen file that prospective steps never publish) names completed steps for removal.  Every path of the reader that answers None is
+    guarded by tests over the marker glob only."""
+    from engine.astutil import stmt_conditions
+    f = ctx.fn(f"{ORCH_MOD}.validate_job_dir_and_return_meta")
+    conds = stmt_conditions(f.node.body)
+    nones = [r for r in returns(f.node) if r.value is None or (isinstance(r.value, ast.Constant) and r.value.value is None)]
+    ctx.need(len(nones) >= 1, f"{f.site()}: no path answers None (incomplete)")
+    allowed = {"len", "list", "sorted", "glob.glob", "os.path.join", "bool", "any", "glob.iglob", "next", "iter"}
+    for k, r in enumerate(nones):
+        cs = conds.get(id(r)) or []
+        ctx.need(bool(cs), f"{f.site()}: unconditional `return None`")
+        env = common.reaching_env(f.node, r)
+        extra, marker, unknown = [], False, []
+        for t, pol in cs:
+            te = inline(t, env)
+            for x in ast.walk(te):
+                if isinstance(x, ast.Constant) and isinstance(x.value, str):
+                    if x.value == "screen_metadata.json":
+                        marker = True
+                    elif "." in x.value and x.value not in ("*", "."):
+                        extra.append(f"file `{x.value}`")
+                elif isinstance(x, ast.Call):
+                    cn = U(x.func)
+                    if cn in allowed:
+                        continue
+                    q = ctx.R.chase(f.mod, cn) if "." not in cn else None
+                    if isinstance(q, str) and q in ctx.R.funcs:
+                        extra.append(f"`{cn}(..)`")
+                    else:
+                        unknown.append(cn)
+        if extra:
+            ctx.bad("R8", f"{f.site()}::incomplete-iff-marker-missing", f"the reader also answers `incomplete` depending on {sorted(set(extra))}: a step whose marker is published "
+                    f"but which lacks that output is reported as an invalid directory to delete, although it completed")
+            return
+        if unknown or not marker:
+            raise AnalysisError(f"{f.site()}: the guard of `return None` ({[U(t) for t, _ in cs]}) is not a test over the screen_metadata.json glob that this rule can read")
+    ctx.ok("R8", f"{f.site()}::incomplete-iff-marker-missing", f"{len(nones)} `return None` path(s), each guarded by the emptiness of the screen_metadata.json glob only")
+
+
+RULE_FUNCS = [r1, r2, r3, r4, r5, r6, r7, r8]
 
 
 def run(ctx):
